@@ -257,6 +257,22 @@ def r4(c, db):
     ok = len(rec) == 1 and any(".search(" in a for a in G.atoms(gm.formula(rec[0]))) and "children" in norm(rec[0])
     c.check("C18.R4", ok, repo.loc(m, fn), "find_true_sequences/nested-descent", "children are searched outside the parent's match test: a family could be true while its ancestor is false",
             key_text="descent")
+    bt = repo.func("annet.annlib.netdev.db", "_build_tree")
+    pvb = Provenance(bt)
+    inner = [n for n in ast.walk(bt) if isinstance(n, ast.For) and isinstance(n.iter, ast.Call) and call_name(n.iter) == "_seq_subs" and isinstance(n.target, ast.Name)]
+    if len(inner) != 1 or len(bt.args.args) < 2:
+        raise AnchorError("db._build_tree: the walk over the prefixes of a sequence (_seq_subs) not found")
+    S = inner[0].target.id
+    allowed = bt.args.args[1].arg
+    nodes = [d for d in ast.walk(inner[0]) if isinstance(d, ast.Dict) and any(isinstance(k, ast.Constant) and k.value == "sequences" for k in d.keys)]
+    if len(nodes) != 1:
+        raise AnchorError("db._build_tree: node construction not found")
+    sv_ = [v for k, v in zip(nodes[0].keys, nodes[0].values) if isinstance(k, ast.Constant) and k.value == "sequences"][0]
+    sv_ = pvb.resolve_alias(sv_)
+    ok = isinstance(sv_, ast.Subscript) and norm(sv_.value) == allowed and norm(pvb.resolve_alias(sv_.slice)) == S
+    c.check("C18.R4", ok, repo.loc(m, nodes[0]), "db._build_tree/node-sequences", f"the node created for the prefix `{S}` stores `{norm(sv_)[:40]}`; expected {allowed}[{S}]: a family node created while "
+            "walking to one of its descendants (a descendant listed before its family in devdb.json) would answer with the descendant's names — the model is hw.A.B.C but not hw.A.B",
+            key_text="node-sequences")
     sv = repo.func("annet.annlib.netdev.db", "_make_seq_variants")
     txt = norm(sv)
     ok = "seq[left:-right] + (seq[-1],)" in txt and "range(len(seq))" in txt and "range(1, len(seq[left:]) + 1)" in txt
